@@ -99,7 +99,7 @@ impl Property for C17Prop {
 
     fn workloads(&self, tier: Tier) -> u64 {
         match tier {
-            Tier::Quick => 12_000,
+            Tier::Quick => 25_000,
             Tier::Thorough => 250_000,
         }
     }
